@@ -189,6 +189,9 @@ fn check_assemble(ins: Instruction, ext: u128) {
     let r = ins.assemble();
     assert!(encode_pre(&r), "C16-1 assemble output satisfies encode's consistency assertions");
     assert!(r.imm.is_some() == imm_of(&ins).is_some(), "C16-2 imm present iff the text has an immediate");
+    // the size the toolchain assumes when laying out code == the number of words encode emits for
+    // this repr (1, plus 1 iff it carries an immediate: c16_encode_contract_*)
+    assert!(ins.body.op_size() == if r.imm.is_some() { 2 } else { 1 }, "C16-2 op_size == number of encoded words (1 + has_immediate)");
     let d = dec_of_repr(&r);
     assert!(d.ext == ext, "C16-3 opcode extension");
     assert!(vm_step(d, st) == Some(expect), "C16-4 vm_step(fields of assemble(i)) == meaning(i)");
